@@ -73,6 +73,16 @@ class World:
     def head(self):
         return self.fc.head()
 
+    def resync(self):
+        """after a delivery that may have made the node fall back to an earlier state: the reference keeps exactly the blocks
+        the node's chain state holds (in their arrival order)"""
+        have = self.node.cm.coinstate.block_by_hash
+        order = [n for n in self.fc.order if n.bid in have]
+        self.fc = refmodel.ForkChoice()
+        for n in order:
+            self.fc.add(n)
+        self.stored = {n.path: n for n in order}
+
 
 def tx_menu(w):
     """submissions enabled at the current head: name -> transaction"""
@@ -156,6 +166,9 @@ def block_menu(w):
     return out
 
 
+_inv_cache = {}
+
+
 def events(w):
     ev = []
     for nm, tx in tx_menu(w).items():
@@ -169,6 +182,9 @@ def events(w):
         if nm in ('extend-a', 'extend-b'):
             # the same head change through the bulk-download path (the block arrives as the answer to a request)
             ev.append(('bulk:' + nm, 'block-bulk', node))
+    # a relayed block that passes the stand-alone checks and fails full validation (the node falls back to its last validated
+    # state, which differs from the current one when bulk-download blocks are pending)
+    ev.append(('relay:invalid-on-head', 'block-invalid', w.head()))
     pool = w.pool()
     if pool:
         ev.append(('net:resubmit-pooled', 'tx-net', pool[0]))
@@ -217,6 +233,33 @@ def step(w, ev, bad, trace):
         if after_ids != before_ids + ([tid] if admitted else []):
             bad.append(('submission-disturbed-pool', "submission '%s' changed other pool entries" % name, trace))
         outcome = 'admitted' if admitted else 'refused'
+    elif kind == 'block-invalid':
+        from .. import cands
+        from skepticoin.networking.messages import DataMessage, DATA_BLOCK
+        key = ('inv', obj.path)
+        if key not in _inv_cache:
+            cl = [c for c in cands.c01_candidates(obj, w.uni) if c.name == 'signed-by-foreign-key' and c.wire() is not None]
+            _inv_cache[key] = cl[0] if cl else None
+        c = _inv_cache[key]
+        if c is None:
+            return 'no-candidate'
+        w.net.clock.t = max(w.net.clock.t, c.now or 0, c.block.timestamp)
+        w.peer().send(DataMessage(DATA_BLOCK, world.from_wire(c.block)))
+        if enc.blockid(c.block) in w.node.cm.coinstate.block_by_hash:
+            bad.append(('invalid-block-entered-state', "a relayed block signed by a foreign key entered chain state", trace))
+            return 'invalid-entered'
+        w.resync()
+        H2 = w.head()
+        outcome = 'invalid-rejected'
+        if w.node.cm.coinstate.current_chain_hash != H2.bid:
+            outcome += '+head-differs'
+        after_ids = [enc.txid(t) for t in w.pool()]
+        if any(i not in before_ids for i in after_ids):
+            bad.append(('pool-grew-on-head-change', "rejected block '%s' added transactions to the pool" % name, trace))
+        still = [enc.txid(t) for t in before if not refmodel.validate_tx(t, H2.utxo)]
+        if [i for i in still if i not in after_ids] and '+head-differs' not in outcome:
+            bad.append(('valid-transaction-evicted', "the rejection of '%s' evicted pending transactions that are still valid at the "
+                        "head" % name, trace))
     else:
         node = obj
         if kind in ('block-relay', 'block-bulk'):
@@ -271,7 +314,10 @@ def execute(trace):
 
 def canon(w):
     cs = w.node.cm.coinstate
-    return (frozenset(cs.block_by_hash.keys()), cs.current_chain_hash, w.pool_ids())
+    lkv = getattr(w.node.cm, 'last_known_valid_coinstate', None)
+    # (the last validated state is what the node falls back to: part of the state as far as future behaviour goes)
+    return (frozenset(cs.block_by_hash.keys()), cs.current_chain_hash, w.pool_ids(),
+            lkv.current_chain_hash if lkv is not None else None)
 
 
 PROBES = ('net:A-valid', 'net:C-valid-2in', 'direct:E-overlaps-A-and-C', 'relay:extend-a', 'relay:extend-e')
